@@ -228,3 +228,6 @@ impl<T, A: Allocator> RawTable<T, A> {
         }
     }
 }
+
+#[cfg(feature = "verif-hooks")]
+pub(crate) mod verif;
